@@ -221,6 +221,11 @@ public class Num {
         BigDecimal b = new BigDecimal(x.n).divide(new BigDecimal(x.d), new MathContext(60));
         return fromDouble(Double.parseDouble(b.toString())).val();
     }
+    public static Value RRoundSeq(Value s) {
+        Value[] a = elems(s); Value[] r = new Value[a.length];
+        for (int i = 0; i < a.length; i++) r[i] = RRoundToDouble(a[i]);
+        return new TupleValue(r);
+    }
     /** is the double-precision image of the rational finite and not NaN */
     public static Value RFiniteD(Value a) { double x = q(a).dbl(); return bool(!(Double.isNaN(x) || Double.isInfinite(x))); }
 
